@@ -292,14 +292,14 @@ def _worker(args):
     return stats, fails
 
 
-def run_cases(prop_name, lines, jobs=16, timeout=600):
+def run_cases(prop_name, lines, jobs=16, timeout=600, per_case=False):
     """run all case lines through implementation and model in parallel chunks"""
     if not lines:
         return {'pairs': 0, 'corr_disagree': 0, 'pred_fail': 0, 'nontrivial': 0, 'outcomes': {}, 'samples': [],
                 'impl_s': 0, 'model_s': 0, 'crash': None}, []
     import props
     prop = props.PROPS[prop_name]
-    n = max(1, min(jobs * 4, len(lines)))
+    n = max(1, len(lines) if per_case else min(jobs * 4, len(lines)))
     chunks = [[] for _ in range(n)]
     gidx = {}
     for line in lines:
